@@ -47,16 +47,16 @@ type Workspace struct {
 
 // Unit is one schema materialised in a workspace.
 type Unit struct {
-	Schema   *schema.Schema
-	PkgPath  string            // import path
-	Dir      string            // absolute dir
-	Files    map[string]string // rel file name -> content, as emitted (no glue)
-	Emitted  map[string]map[string]string // plugin -> file -> content
-	PluginErr map[string]string // plugin -> error
-	HasMock  bool
-	BuildErr string // filled by Build when this package fails
-	VetErr   string
-	NoGlue   bool
+	Schema    *schema.Schema
+	PkgPath   string                       // import path
+	Dir       string                       // absolute dir
+	Files     map[string]string            // rel file name -> content, as emitted (no glue)
+	Emitted   map[string]map[string]string // plugin -> file -> content
+	PluginErr map[string]string            // plugin -> error
+	HasMock   bool
+	BuildErr  string // filled by Build when this package fails
+	VetErr    string
+	NoGlue    bool
 }
 
 // New creates a workspace module in dir.
